@@ -285,6 +285,11 @@ void h_peg_rule(void) {
     __CPROVER_assert(g_mode0 != PEG_MODE_ACCUMULATE || (CAPS.count == cap0 && SCR.count >= scr0), "C12 SEM: accumulate mode - no positional capture, accumulator only grows");
   }
 #endif
+#ifdef PEG_CAPTURE_TAGGED
+  /* <- : with back-references in the grammar every capture must be findable by tag later (backref / backmatch),
+   * whatever the capture mode: at least one tagged capture is added and tags / tagged_captures stay aligned */
+  if (result != NULL && S.has_backref) __CPROVER_assert(TCAPS.count >= tcap0 + 1 && TAGS.count == TCAPS.count, "C12 SEM: with back-references the capture is recorded as a tagged capture (also in accumulate mode)");
+#endif
 #ifdef PEG_CONSUMES_NOTHING
   __CPROVER_assert(result == NULL || result == text, "C12 SEM: the rule consumes no input");
 #endif
